@@ -39,7 +39,7 @@ def fixed_cases(tier):
 
 
 def examples(tier):
-    return 4000 if tier == "quick" else 50000
+    return 4000 if tier == "quick" else 120000
 
 
 def wall_budget(tier):
